@@ -231,4 +231,44 @@ example : Nat.card {c : Fin 2 → ZMod 7 // ∀ i ∈ ({1, 2} : Finset ℕ),
     = 7 ^ (2 - ({1, 2} : Finset ℕ).card) :=
   payload_uniform_modP 7 (m := 5) (by decide) 2 (by decide) {1, 2} (by decide) (by decide) 3 _
 
+/-! ### the field must have more elements than there are parties -/
+
+private lemma horner_modP_zero (p : ℕ) (c : List ℕ) (y : ℕ) :
+    c.foldl (fun y cj => (modP p).mul ((modP p).add y cj) 0) (y * 0) = 0 := by
+  induction c generalizing y with
+  | nil => simp
+  | cons a c ih =>
+    simp only [List.foldl_cons]
+    have h : (modP p).mul ((modP p).add (y * 0) a) 0 = ((modP p).add (y * 0) a) * 0 := by simp [modP]
+    rw [h]
+    exact ih _
+
+/-- the hypothesis `m < p` of `payload_uniform_modP` / `no_share_in_clear` (guaranteed in the code by `_SecFld`'s lifting
+of fields with at most m elements, sectypes.py) is necessary: a party whose x-coordinate is a multiple of p — party p-1
+when GF(p) is used with p parties — receives the dealt value ITSELF as its subshare, for every choice of coefficients -/
+theorem point_zero_share_is_secret (p : ℕ) (s : ℕ) (c : List ℕ) (k : ℕ) :
+    shareAt (modP p) s c (k * p) = s % p := by
+  unfold shareAt horner
+  have h0 : (modP p).ofNat (k * p) = 0 := by simp [modP]
+  rw [h0]
+  have := horner_modP_zero p c 0
+  simp only [Nat.zero_mul] at this
+  have hz : (modP p).zero = 0 := rfl
+  rw [hz, this]
+  simp [modP]
+
+/-- … as a statement about the dealing call: over GF(p) with m = p parties the last row of the matrix is the batch of
+dealt values, whatever the threshold and the draws -/
+theorem last_row_is_secret_when_m_eq_p (p : ℕ) (hp : 0 < p) (s coeffs : List ℕ) (t : ℕ) :
+    (randomSplit (modP p) s coeffs t p).getD (p - 1) [] = s.map (· % p) := by
+  rw [randomSplit_row _ s coeffs t p (by omega)]
+  have hp1 : p - 1 + 1 = 1 * p := by omega
+  rw [hp1]
+  simp only [point_zero_share_is_secret]
+  induction s using List.reverseRecOn with
+  | nil => simp
+  | append_singleton l a ih => simp [List.zipIdx_append, ih]
+
+example : (randomSplit (modP 3) [2] [1] 1 3).getD 2 [] = [2] := by decide
+
 end MpycV.C14
